@@ -10,7 +10,8 @@ from boot import (Seq, SeqRecord, SeqFeature, SimpleLocation, CompoundLocation, 
 from wire import (Feat, CRec, w, unw, enc_list, enc_feats, enc_rec, dec_rec, dec_feats, dec_list,
                   canon_feats)
 
-TYPES = ["source", "misc_feature", "CDS", "gene", "promoter", "terminator", "rep_origin", "primer_bind"]
+TYPES = ["source", "misc_feature", "CDS", "gene", "promoter", "terminator", "rep_origin", "primer_bind",
+         ""]        # (index 8: the empty type, SeqFeature's default — only C08 generates it)
 
 
 class Injected(Exception):
